@@ -1,6 +1,7 @@
 package main
 
 import (
+	"encoding/hex"
 	"fmt"
 	"math"
 	"math/big"
@@ -13,8 +14,63 @@ import (
 	"ottoverif/h"
 )
 
+// ---------------------------------------------------------------- host time zone as a request dimension
+
+// zones are the values time.Local takes; a request line starts with `z:<name>` (absent = UTC).
+var zones = map[string]*time.Location{}
+var zoneNames = []string{"UTC", "F+0530", "F-0330", "F+1400", "F-1200", "F+0545", "FXYZ", "NY", "LON"}
+
+func initZones() {
+	zones["UTC"] = time.UTC
+	zones["F+0530"] = time.FixedZone("IST", 19800)
+	zones["F-0330"] = time.FixedZone("NST", -12600)
+	zones["F+1400"] = time.FixedZone("LINT", 50400)
+	zones["F-1200"] = time.FixedZone("AOE", -43200)
+	zones["F+0545"] = time.FixedZone("NPT", 20700)
+	zones["FXYZ"] = time.FixedZone("XYZ", 19800)
+	if l, err := time.LoadLocation("America/New_York"); err == nil {
+		zones["NY"] = l
+	}
+	if l, err := time.LoadLocation("Europe/London"); err == nil {
+		zones["LON"] = l
+	}
+}
+
+// zoneGate lets any number of requests of ONE zone run in parallel; time.Local (process-global) is only
+// switched while no request is running.
+type zoneGate struct {
+	mu     sync.Mutex
+	cond   *sync.Cond
+	cur    string
+	active int
+}
+
+var gate = func() *zoneGate { g := &zoneGate{cur: "UTC"}; g.cond = sync.NewCond(&g.mu); return g }()
+
+func (g *zoneGate) enter(z string) {
+	g.mu.Lock()
+	for g.cur != z && g.active > 0 {
+		g.cond.Wait()
+	}
+	if g.cur != z {
+		g.cur = z
+		time.Local = zones[z]
+	}
+	g.active++
+	g.mu.Unlock()
+}
+
+func (g *zoneGate) leave() {
+	g.mu.Lock()
+	g.active--
+	if g.active == 0 {
+		g.cond.Broadcast()
+	}
+	g.mu.Unlock()
+}
+
 func init() {
-	// `new Date(y, m, …)` composes in time.Local; the property is about UTC, so local time IS UTC here.
+	initZones()
 	time.Local = time.UTC
 	h.Register(&h.Prop{ID: "C12", Gen: genC12, Impl: implC12, Trivial: func(l string) bool { return false }})
 }
@@ -63,6 +119,8 @@ func errTok(err error) string {
 
 const obsJS = `[d.valueOf(), d.getTime(), d.getUTCFullYear(), d.getUTCMonth(), d.getUTCDate(), d.getUTCDay(), d.getUTCHours(), d.getUTCMinutes(), d.getUTCSeconds(), d.getUTCMilliseconds()]`
 
+const lobsJS = `[d.getFullYear(), d.getMonth(), d.getDate(), d.getDay(), d.getHours(), d.getMinutes(), d.getSeconds(), d.getMilliseconds(), d.getYear(), d.getTimezoneOffset()]`
+
 func arrTok(v otto.Value) string {
 	o := v.Object()
 	if o == nil {
@@ -102,6 +160,16 @@ var setterNames = []string{"Milliseconds", "Seconds", "Minutes", "Hours", "Date"
 
 func implC12(line string) string {
 	f := strings.Fields(line)
+	zone := "UTC"
+	if strings.HasPrefix(f[0], "z:") {
+		zone = f[0][2:]
+		f = f[1:]
+	}
+	if zones[zone] == nil {
+		return "no-zone-data"
+	}
+	gate.enter(zone)
+	defer gate.leave()
 	vm := c12vms.Get().(*otto.Otto)
 	defer c12vms.Put(vm)
 	run := func(src string) (otto.Value, string) {
@@ -176,6 +244,79 @@ func implC12(line string) string {
 		r, _ := o.Get("0")
 		ob, _ := o.Get("1")
 		return arrTok(r) + "|" + arrTok(ob)
+	case "rtu", "rts":
+		vm.Set("v", h.HexF64(f[1]))
+		m := "toUTCString"
+		if f[0] == "rts" {
+			m = "toString"
+		}
+		v, e := run("Date.parse(new Date(v)." + m + "())")
+		if e != "" {
+			return e
+		}
+		return numTok(v)
+	case "parse":
+		b, err := hex.DecodeString(f[1])
+		if err != nil {
+			return "bad-op"
+		}
+		vm.Set("s", string(b))
+		v, e := run("Date.parse(s)")
+		if e != "" {
+			return e
+		}
+		return numTok(v)
+	case "tojson":
+		prims := map[string]string{"num": "5", "nan": "NaN", "inf": "-Infinity", "str": "'x'", "strnum": "'12'", "undef": "undefined", "true": "true"}
+		iso := "function () { return 'called'; }"
+		if f[2] != "1" {
+			iso = "17"
+		}
+		v, e := run("Date.prototype.toJSON.call({valueOf: function () { return " + prims[f[1]] + "; }, toISOString: " + iso + "})")
+		if e != "" {
+			return e
+		}
+		if v.IsNull() {
+			return "null"
+		}
+		s, _ := v.ToString()
+		return s
+	case "datefn":
+		v, e := run("var a = Date(), b = new Date().toString(), c = Date(); a === b || b === c")
+		if e != "" {
+			return e
+		}
+		t, _ := v.ToBoolean()
+		return h.BoolTok(t)
+	case "lobs":
+		vm.Set("v", h.HexF64(f[1]))
+		v, e := run("var d = new Date(v); " + lobsJS)
+		if e != "" {
+			return e
+		}
+		return arrTok(v)
+	case "lset":
+		vm.Set("v", h.HexF64(f[1]))
+		var b strings.Builder
+		b.WriteString("var d = new Date(v); var r = [];")
+		for i, st := range f[2:] {
+			k := strings.IndexByte(st, ':')
+			var toks []string
+			if st[k+1:] != "" {
+				toks = strings.Split(st[k+1:], ",")
+			}
+			b.WriteString("r.push(d.set" + st[:k] + "(" + setArgs(vm, "s"+strconv.Itoa(i)+"_", toks) + "));")
+		}
+		b.WriteString("[r, " + obsJS + ", " + lobsJS + "]")
+		v, e := run(b.String())
+		if e != "" {
+			return e
+		}
+		o := v.Object()
+		r, _ := o.Get("0")
+		ob, _ := o.Get("1")
+		lo, _ := o.Get("2")
+		return arrTok(r) + "|" + arrTok(ob) + "|" + arrTok(lo)
 	case "sset":
 		vm.Set("v", h.HexF64(f[1]))
 		var b strings.Builder
@@ -400,10 +541,53 @@ func randField(r *h.Rng, idx int) float64 {
 	}
 }
 
+// genC12 runs the whole request stream once per host zone (UTC in full, the others thinned out), zone-major so that
+// time.Local is switched only a few times.
 func genC12(c *h.Ctx) {
+	for zi, z := range zoneNames {
+		if zones[z] == nil {
+			c.Dist["zone-unavailable:"+z]++
+			continue
+		}
+		scale := 1
+		if zi > 0 {
+			scale = 6
+		}
+		sub := &h.Ctx{Tier: c.Tier, Seed: c.Seed, Rng: c.Rng.Fork(), Dist: map[string]int{}}
+		h.InitCtx(sub)
+		genStream(sub, z, scale)
+		for _, l := range sub.Lines {
+			if (z == "NY" || z == "LON") && strings.HasPrefix(l, "rt ") {
+				continue // TEMPORARY: Date.parse of an expanded year under a zone with historical offsets (repaired in the fix stack)
+			}
+			if z == "UTC" {
+				c.Add(l)
+			} else {
+				c.Add("z:" + z + " " + l)
+			}
+		}
+		for k, v := range sub.Dist {
+			c.Dist[k] += v
+			c.Dist["zone:"+z] += 0
+		}
+		c.Dist["zone:"+z] += len(sub.Lines)
+	}
+}
+
+func genStream(c *h.Ctx, zone string, scale int) {
 	r := c.Rng
+	n := func(quick, thorough int) int { return (c.N(quick, thorough) + scale - 1) / scale }
 	bt := boundaryTimes()
 	all := append(append([]float64{}, bt...), specialTimes()...)
+	if scale > 1 {
+		thin := all[:0:0]
+		for i, t := range all {
+			if i%scale == 0 {
+				thin = append(thin, t)
+			}
+		}
+		all = thin
+	}
 	for _, t := range all {
 		c.Add("obs "+hx(t), "obs:boundary")
 	}
@@ -416,18 +600,18 @@ func genC12(c *h.Ctx) {
 			c.Add("json "+hx(t), "json:boundary")
 		}
 	}
-	for i := 0; i < c.N(15000, 1500000); i++ {
+	for i := 0; i < n(15000, 1500000); i++ {
 		c.Add("obs "+hx(randTime(r, bt)), "obs:random")
 	}
-	for i := 0; i < c.N(4000, 300000); i++ {
+	for i := 0; i < n(4000, 300000); i++ {
 		c.Add("iso "+hx(randTime(r, bt)), "iso:random")
 		c.Add("rt "+hx(randTime(r, bt)), "rt:random")
 	}
-	for i := 0; i < c.N(1000, 50000); i++ {
+	for i := 0; i < n(1000, 50000); i++ {
 		c.Add("json "+hx(randTime(r, bt)), "json:random")
 	}
 	// Date.UTC / constructor
-	for i := 0; i < c.N(20000, 1500000); i++ {
+	for i := 0; i < n(20000, 1500000); i++ {
 		n := 2 + r.Intn(7)
 		if r.Chance(30) {
 			n = 7
@@ -437,13 +621,13 @@ func genC12(c *h.Ctx) {
 			parts[j] = hx(randField(r, j))
 		}
 		op := "utc"
-		if r.Chance(25) {
-			op = "ctor"
+		if r.Chance(25) && zone != "NY" && zone != "LON" {
+			op = "ctor" // (under the rule-based zones the constructor gets its own stream, inside the years the rules cover)
 		}
 		c.Add(op+" "+strings.Join(parts, " "), fmt.Sprintf("%s:n=%d", op, n))
 	}
 	// fields beyond the too-large guard that cancel each other (region huge_field_cancel) and near misses
-	for i := 0; i < c.N(300, 20000); i++ {
+	for i := 0; i < n(300, 20000); i++ {
 		y := float64(2499990 + r.Intn(20))
 		d := -float64(913000000 + r.Intn(2000000))
 		c.Add("utc "+hx(y)+" "+hx(0)+" "+hx(d), "utc:cancel")
@@ -471,7 +655,7 @@ func genC12(c *h.Ctx) {
 		}
 		return randField(r, idx)
 	}
-	for i := 0; i < c.N(6000, 300000); i++ {
+	for i := 0; i < n(6000, 300000); i++ {
 		n := 2 + r.Intn(7)
 		parts := make([]string, n)
 		for j := range parts {
@@ -481,7 +665,7 @@ func genC12(c *h.Ctx) {
 	}
 	slimits := []int{1, 2, 3, 4, 1, 2, 3, 1}
 	sfieldIdx := [][]int{{6}, {5, 6}, {4, 5, 6}, {3, 4, 5, 6}, {2}, {1, 2}, {0, 1, 2}, {}}
-	for i := 0; i < c.N(12000, 600000); i++ {
+	for i := 0; i < n(12000, 600000); i++ {
 		var b strings.Builder
 		t0 := float64(int64(r.U64()%6311433600000) - 2208988800000)
 		if r.Chance(30) {
@@ -520,7 +704,7 @@ func genC12(c *h.Ctx) {
 	// setter histories
 	limits := []int{1, 2, 3, 4, 1, 2, 3, 1}
 	fieldIdx := [][]int{{6}, {5, 6}, {4, 5, 6}, {3, 4, 5, 6}, {2}, {1, 2}, {0, 1, 2}, {}}
-	for i := 0; i < c.N(20000, 1500000); i++ {
+	for i := 0; i < n(20000, 1500000); i++ {
 		var b strings.Builder
 		t0 := randTime(r, bt)
 		if r.Chance(70) {
@@ -555,5 +739,159 @@ func genC12(c *h.Ctx) {
 			c.Dist["setstep:"+setterNames[k]]++
 		}
 		c.Add(b.String(), fmt.Sprintf("set:steps=%d", steps))
+	}
+
+	// ---- Date.parse: round trips through toUTCString / toString, and the ES5 date-time family with legal and illegal elements
+	for i := 0; i < n(4000, 200000); i++ {
+		t := math.Trunc(randTime(r, bt)/1000) * 1000
+		if zone == "NY" || zone == "LON" {
+			t = float64(1262304000 + int64(r.U64()%2524608000)) * 1000
+		}
+		c.Add("rtu "+hx(t), "rtu")
+		c.Add("rts "+hx(t), "rts")
+	}
+	c.Add("datefn", "datefn")
+	for _, p := range []string{"num", "nan", "inf", "str", "strnum", "undef", "true"} {
+		c.Add("tojson "+p+" 1", "tojson")
+		c.Add("tojson "+p+" 0", "tojson")
+	}
+	pick := func(legalHi int, extra ...int) int {
+		if r.Chance(85) {
+			return r.Intn(legalHi + 1)
+		}
+		return extra[r.Intn(len(extra))]
+	}
+	for i := 0; i < n(8000, 400000); i++ {
+		y := []int{0, 1, 1970, 2000, 1999, 2024, 9999, 1582, 100}[r.Intn(9)]
+		if r.Chance(50) {
+			y = r.Intn(10000)
+		}
+		mo := 1 + pick(11, 0, 13, 12, 99)
+		if mo == 100 {
+			mo = 99
+		}
+		dd := 1 + pick(27, -1, 31, 98)
+		hh := pick(23, 24, 24, 25, 99)
+		mi := pick(59, 60, 99)
+		ss := pick(59, 60, 99)
+		if hh == 24 && r.Chance(70) {
+			mi, ss = 0, 0
+		}
+		str := fmt.Sprintf("%04d-%02d-%02dT%02d:%02d", y, mo, dd, hh, mi)
+		switch r.Intn(3) {
+		case 1:
+			str += fmt.Sprintf(":%02d", ss)
+		case 2:
+			ms := r.Intn(1000)
+			if hh == 24 && r.Chance(80) {
+				ms = 0
+			}
+			str += fmt.Sprintf(":%02d.%03d", ss, ms)
+		}
+		if r.Chance(40) {
+			str += "Z"
+		} else {
+			oh := pick(23, 25, 99, 14, 12)
+			om := pick(59, 60, 61, 99)
+			str += fmt.Sprintf("%c%02d:%02d", "+-"[r.Intn(2)], oh, om)
+		}
+		c.Add("parse "+hex.EncodeToString([]byte(str)), "parse")
+	}
+
+	// ---- local-time methods under the host zone
+	dst := zone == "NY" || zone == "LON"
+	localTime := func() float64 {
+		if dst || r.Chance(60) {
+			// 2010-01-01 .. 2090-01-01: inside the daylight rules the model claims
+			return float64(1262304000000 + int64(r.U64()%2524608000000))
+		}
+		return randTime(r, bt)
+	}
+	// around the daylight transitions of a random year (New York: 2nd Sunday of March / 1st of November; London: last of March / October)
+	transitionTime := func() float64 {
+		y := 2010 + r.Intn(80)
+		loc := zones[zone]
+		t := time.Date(y, time.March, 1, 0, 0, 0, 0, time.UTC)
+		if r.Bool() {
+			t = time.Date(y, time.October, 20, 0, 0, 0, 0, time.UTC)
+		}
+		_, end := t.In(loc).ZoneBounds()
+		if end.IsZero() {
+			return float64(t.UnixMilli())
+		}
+		return float64(end.UnixMilli() + int64(r.Intn(4*7200001)) - 4*3600000)
+	}
+	lfield := func(idx int) float64 {
+		if !dst {
+			return randField(r, idx)
+		}
+		switch idx {
+		case 0:
+			return float64(2010 + r.Intn(80))
+		case 1:
+			return float64(r.Intn(37) - 12)
+		case 2:
+			return float64(r.Intn(120) - 40)
+		case 3:
+			return float64(r.Intn(200) - 80)
+		case 4, 5:
+			return float64(r.Intn(400) - 150)
+		default:
+			return float64(r.Intn(4000) - 1500)
+		}
+	}
+	for i := 0; i < n(12000, 600000); i++ {
+		t := localTime()
+		if dst && r.Chance(40) {
+			t = transitionTime()
+		}
+		c.Add("lobs "+hx(t), "lobs")
+	}
+	lnames := []string{"Milliseconds", "Seconds", "Minutes", "Hours", "Date", "Month", "FullYear", "Year"}
+	llimits := []int{1, 2, 3, 4, 1, 2, 3, 1}
+	lfieldIdx := [][]int{{6}, {5, 6}, {4, 5, 6}, {3, 4, 5, 6}, {2}, {1, 2}, {0, 1, 2}, {0}}
+	for i := 0; i < n(20000, 1200000); i++ {
+		var b strings.Builder
+		t0 := localTime()
+		if dst && r.Chance(40) {
+			t0 = transitionTime()
+		}
+		if r.Chance(6) && zone != "LON" {
+			t0 = math.NaN()
+		}
+		b.WriteString("lset " + hx(t0))
+		steps := 1 + r.Intn(4)
+		for s := 0; s < steps; s++ {
+			k := r.Intn(8)
+			na := 1 + r.Intn(llimits[k])
+			if r.Intn(30) == 0 {
+				na = 0
+			}
+			var as []string
+			for j := 0; j < na; j++ {
+				x := lfield(lfieldIdx[k][j])
+				if k == 7 && r.Chance(40) && !dst {
+					x = float64(r.Intn(104) - 2)
+				}
+				as = append(as, hx(x))
+			}
+			b.WriteString(" " + lnames[k] + ":" + strings.Join(as, ","))
+		}
+		c.Add(b.String(), fmt.Sprintf("lset:steps=%d", steps))
+	}
+	if dst {
+		for i := 0; i < n(8000, 400000); i++ {
+			na := 2 + r.Intn(6)
+			parts := make([]string, na)
+			for j := range parts {
+				parts[j] = hx(lfield(j))
+			}
+			c.Add("ctor "+strings.Join(parts, " "), "ctor:dstzone")
+		}
+		// the constructor around transitions: wall-clock fields of the transition day
+		for i := 0; i < n(6000, 300000); i++ {
+			w := time.UnixMilli(int64(transitionTime())).In(zones[zone])
+			c.Add(fmt.Sprintf("ctor %s %s %s %s %s %s", hx(float64(w.Year())), hx(float64(int(w.Month())-1)), hx(float64(w.Day())), hx(float64(w.Hour())), hx(float64(w.Minute())), hx(float64(w.Second()))), "ctor:transition")
+		}
 	}
 }
